@@ -100,7 +100,7 @@ from vyper.utils import (
 )
 from vyper.warnings import vyper_warn
 
-from ._convert import convert, validate_literal_convert
+from ._convert import convert, validate_convert_types, validate_literal_convert
 from ._signatures import BuiltinFunctionT, process_inputs
 
 SHA256_ADDRESS = 2
@@ -236,6 +236,9 @@ class Convert(BuiltinFunctionT):
             raise CodegenPanic("convert not yet implemented for unbounded sequence type")
         if isinstance(value_type, DArrayT) and not is_bounded_length(value_type.count):
             raise CodegenPanic("convert not yet implemented for unbounded sequence type")
+
+        # type pairs which the converters reject (same check, same diagnostic as codegen)
+        validate_convert_types(node.args[0].reduced(), value_type, target_type)
 
         # out-of-range literals (same check, same diagnostic as codegen)
         validate_literal_convert(node.args[0].reduced(), value_type, target_type)
